@@ -17,10 +17,23 @@
 #include <sys/socket.h>
 #include "vp.h"
 
+/* -DVP_MEMCPY_SMALL=k: copies longer than k bytes use cbmc's array primitives instead of the
+ * byte loop (a loop bound is per loop, not per call site: one long copy -- the finished response
+ * -- would otherwise force every short label copy to be unrolled to the long bound). */
 static void *vp_memcpy(void *d, const void *s, size_t n)
 {
 	size_t i;
 	unsigned char *dd = d; const unsigned char *ss = s;
+#if defined(VP_MEMCPY_SMALL) && defined(VP_CBMC)
+	if (n > VP_MEMCPY_SMALL) {
+		unsigned char tmp[n];
+		__CPROVER_assert(__CPROVER_r_ok(s, n), "memcpy source region readable");
+		__CPROVER_assert(__CPROVER_w_ok(d, n), "memcpy destination region writeable");
+		__CPROVER_array_copy(tmp, (const unsigned char *)s);
+		__CPROVER_array_replace((unsigned char *)d, tmp);
+		return d;
+	}
+#endif
 	for (i = 0; i < n; i++) dd[i] = ss[i];
 	return d;
 }
